@@ -119,6 +119,17 @@ Section Init.
     exists s'. split; [exact Hs|]. split; [exact I'|]. now rewrite R'.
   Qed.
 
+  (* a failed first mmap lands in exactly the state a pipe starts from *)
+  Lemma init_file_nommap_eq : forall P mb data chunks, 0 < P ->
+    init_file_nommap v P mb data chunks = init_pipe v P mb data chunks.
+  Proof.
+    intros P mb data chunks HP. unfold init_file_nommap, init_pipe, mmap_shift_failed, init_common, shift, transition_to_read.
+    cbn -[Nat.modulo Nat.div Nat.mul Nat.max Nat.leb Nat.eqb firstn skipn length last_space_rel read_shift set_ls avail open_fd].
+    rewrite Nat.mod_0_l by lia.
+    cbn -[Nat.modulo Nat.div Nat.mul Nat.max Nat.leb Nat.eqb firstn skipn length last_space_rel read_shift set_ls avail open_fd].
+    reflexivity.
+  Qed.
+
   Theorem init_inv : forall b P mb data chunks, 0 < P ->
     exists s, init v b P mb data chunks = Some s /\ Inv (length data) s /\ rest s = data.
   Proof.
@@ -127,6 +138,7 @@ Section Init.
     - now apply init_pipe_inv.
     - now apply init_stream_inv.
     - now apply init_pipe_stream_inv.
+    - rewrite init_file_nommap_eq by exact HP. now apply init_pipe_inv.
   Qed.
 End Init.
 
